@@ -26,9 +26,14 @@ op   ::= a:<item>             append(item)
        | g:<int>              args[int]
        | s:<lo>:<hi>          args[lo:hi], a bound is an int or `_` (left out)
        | t                    str(args)
+       | x:<lo>:<hi>          args.extend(args[lo:hi])   (extend by a TexArgs object: own slice)
+       | y                    target.extend(other)       (`other`: the args of a second command)
+       | o:<op>               the operation <op> with the roles of target and other swapped
+                              (`o:a:..` appends to other, `o:y` is other.extend(target))
 ```
 
-Answer: for every operation `<out> @ <state>`, joined by `;`, where
+Answer: for every operation `<out> @ <state>`, joined by `;`; if the history uses `other`
+(any `y` or `o:` operation) `<state>` is followed by ` & <state of other>`; where
 
 ```
 out   ::= none | item <sexpr> | slice <state> | string <str> | TypeError | ValueError | IndexError
@@ -140,13 +145,26 @@ def decOp (n : Nat) (w : String) : Option ArgsOp :=
     let hi ← decBound hi
     pure (.slice lo hi)
   | ["t"] => some .str
+  | ["x", lo, hi] => do
+    let lo ← decBound lo
+    let hi ← decBound hi
+    pure (.extendSlice lo hi)
   | _ => none
 
-def runShow (st : ArgsSt) : List ArgsOp → List String
+def decPairOp (n : Nat) (w : String) : Option Args.PairOp :=
+  if w == "y" then some (.extendBy false)
+  else if w == "o:y" then some (.extendBy true)
+  else if w.startsWith "o:" then (decOp n (w.drop 2).toString).map (.on true)
+  else (decOp n w).map (.on false)
+
+def usesOther (w : String) : Bool := w == "y" || w.startsWith "o:"
+
+def runShow (two : Bool) (s : Args.PairSt) : List Args.PairOp → List String
   | [] => []
   | op :: ops =>
-    let r := Args.step st op
-    (showOut r.2 ++ " @ " ++ showState r.1) :: runShow r.1 ops
+    let r := Args.stepPair s op
+    (showOut r.2 ++ " @ " ++ showState r.1.tgt ++
+      (if two then " & " ++ showState r.1.oth else "")) :: runShow two r.1 ops
 
 end ArgsDrv
 
@@ -154,8 +172,10 @@ def argsHandle (words : List String) : String :=
   match words with
   | [] => ""
   | [w] =>
-    match ((w.splitOn ";").zipIdx).mapM (fun (xn : String × Nat) => ArgsDrv.decOp xn.2 xn.1) with
-    | some ops => ";".intercalate (ArgsDrv.runShow (.empty 0) ops)
+    let ws := w.splitOn ";"
+    match (ws.zipIdx).mapM (fun (xn : String × Nat) => ArgsDrv.decPairOp xn.2 xn.1) with
+    | some ops =>
+      ";".intercalate (ArgsDrv.runShow (ws.any ArgsDrv.usesOther) (Args.PairSt.mk (.empty 0) (.empty 0)) ops)
     | none => "bad-arg"
   | _ => "bad-op"
 
